@@ -185,8 +185,8 @@ Lemma valid_from_local g c evs : forall k,
 Proof.
   induction evs as [|e evs IH]; intros k Hs H; [reflexivity|]. cbn [valid_from].
   destruct (H e (or_introl eq_refl)) as [Hl Ht]. apply andb_true_intro. split.
-  - unfold ev_ok. unfold ev_local_ok in Hl. apply andb_prop in Hl. destruct Hl as [Hd Hl]. fold (ev_time e).
-    rewrite Hd. replace (r_time k <=? ev_time e) with true by (symmetry; now apply Z.leb_le). cbn [andb].
+  - unfold ev_ok. unfold ev_local_ok in Hl. apply andb_prop in Hl. destruct Hl as [Hd Hl]. unfold ev_time in Ht.
+    rewrite Hd. replace (r_time k <=? m_time (ev_msg e)) with true by (symmetry; now apply Z.leb_le). cbn [andb].
     destruct (m_type (ev_msg e)); try reflexivity; try exact Hl. discriminate.
   - inversion Hs as [|? ? Hs' He]; subst. apply IH; [exact Hs'|]. intros x Hx.
     split; [apply H; now right|]. rewrite Forall_forall in He. specialize (He x Hx). unfold ele, ptime in He.
@@ -195,9 +195,37 @@ Proof.
     rewrite Hr. exact He.
 Qed.
 
+Lemma is_on_type' m : is_on m = true -> m_type m = NOTE_ON.
+Proof. unfold is_on, mtype_eqb. destruct (m_type m); cbn; congruence. Qed.
+
 (* the notes of channel i among the events *)
 Definition track_notes (i : Z) (evs : list C01_rest.event) : list note :=
   flat_map (fun e => if is_on (ev_msg e) && (m_chan (ev_msg e) =? i) then [pnote (snd e)] else []) evs.
+
+Lemma track_notes_app i a b : track_notes i (a ++ b) = track_notes i a ++ track_notes i b.
+Proof. apply flat_map_app. Qed.
+Lemma flat_cons c pl P : flat ((c, pl) :: P) = map (pair c) pl ++ flat P.
+Proof. reflexivity. Qed.
+
+Lemma track_notes_chan i : forall pl ch, Forall (fun p => m_chan (p_first p) = ch) pl ->
+  track_notes i (map (pair ch) pl) = if ch =? i then on_notes pl else [].
+Proof.
+  induction pl as [|p pl IHp]; intros ch Hf; [now destruct (ch =? i)|].
+  pose proof (Forall_inv Hf) as Hp. pose proof (Forall_inv_tail Hf) as Hf'. cbn beta in Hp.
+  unfold track_notes in *. cbn [map flat_map]. rewrite (IHp _ Hf').
+  unfold ev_msg. cbn [snd]. rewrite Hp. destruct (ch =? i).
+  - rewrite andb_true_r. unfold on_notes. cbn [flat_map]. reflexivity.
+  - rewrite andb_false_r. reflexivity.
+Qed.
+
+Lemma track_notes_flat_none i P : ~ In i (map fst P) ->
+  (forall ch pl, In (ch, pl) P -> Forall (fun p => m_chan (p_first p) = ch) pl) -> track_notes i (flat P) = [].
+Proof.
+  induction P as [|[c pl] P IH]; intros Hn Hc; [reflexivity|].
+  rewrite flat_cons, track_notes_app, (track_notes_chan i pl c (Hc c pl (or_introl eq_refl))).
+  cbn [map fst] in Hn. destruct (Z.eqb_spec c i) as [->|Hne]; [exfalso; apply Hn; now left|]. cbn [app].
+  apply IH; [intros H; apply Hn; now right|]. intros ch pl0 H. apply Hc. now right.
+Qed.
 
 Lemma track_notes_flat i P : uniq P ->
   (forall ch pl, In (ch, pl) P -> Forall (fun p => m_chan (p_first p) = ch) pl) ->
@@ -205,31 +233,11 @@ Lemma track_notes_flat i P : uniq P ->
 Proof.
   unfold uniq, chan_pairs. induction P as [|[c pl] P IH]; intros Hu Hc; [reflexivity|].
   cbn [map fst] in Hu. inversion Hu as [|? ? Hn Hu']; subst.
-  assert (Hloc : forall pl' ch, Forall (fun p => m_chan (p_first p) = ch) pl' ->
-            track_notes i (map (pair ch) pl') = if ch =? i then on_notes pl' else []).
-  { induction pl' as [|p pl' IHp]; intros ch Hf; [now destruct (ch =? i)|].
-    inversion Hf as [|? ? Hp Hf']; subst. unfold track_notes in *. cbn [map flat_map]. rewrite (IHp _ Hf').
-    unfold ev_msg. cbn [snd]. rewrite Hp. destruct (m_chan (p_first p) =? i).
-    - rewrite andb_true_r. unfold on_notes. cbn [flat_map]. reflexivity.
-    - rewrite andb_false_r. reflexivity. }
-  unfold flat. cbn [flat_map fst snd dget]. fold (flat P). unfold track_notes. rewrite flat_map_app.
-  fold (track_notes i (map (pair c) pl)). fold (track_notes i (flat P)).
-  rewrite (Hloc pl c (Hc c pl (or_introl eq_refl))).
+  rewrite flat_cons, track_notes_app. cbn [dget].
+  rewrite (track_notes_chan i pl c (Hc c pl (or_introl eq_refl))).
   destruct (Z.eqb_spec i c) as [->|Hne].
-  - rewrite Z.eqb_refl.
-    assert (Hrest : track_notes c (flat P) = []).
-    { clear IH Hloc. induction P as [|[c' pl'] P IHP]; [reflexivity|].
-      unfold flat. cbn [flat_map fst snd]. fold (flat P). unfold track_notes. rewrite flat_map_app.
-      fold (track_notes c (flat P)). rewrite IHP.
-      - rewrite app_nil_r. assert (Hne : c' <> c) by (intros ->; apply Hn; now left).
-        pose proof (Hc c' pl' (or_intror (or_introl eq_refl))) as Hf.
-        induction pl' as [|p pl' IHp]; [reflexivity|]. inversion Hf as [|? ? Hp Hf']; subst. cbn [map flat_map].
-        rewrite IHp; [|intros ch pl0 [H|[H|H]]; [apply Hc; now left|injection H as <- <-; exact Hf'|apply Hc; right; now right]|exact Hf'].
-        unfold ev_msg. cbn [snd]. destruct (Z.eqb_spec (m_chan (p_first p)) c); [congruence|]. now rewrite andb_false_r.
-      - intros H. apply Hn. now right.
-      - cbn [map fst] in Hu'. now inversion Hu'.
-      - intros ch pl0 [H|H]; [apply Hc; now left|apply Hc; right; now right]. }
-    rewrite Hrest, app_nil_r. reflexivity.
+  - rewrite Z.eqb_refl. rewrite track_notes_flat_none; [apply app_nil_r|exact Hn|].
+    intros ch pl0 H. apply Hc. now right.
   - destruct (Z.eqb_spec c i); [congruence|]. cbn [app]. apply IH; [exact Hu'|].
     intros ch pl0 H. apply Hc. now right.
 Qed.
@@ -340,7 +348,7 @@ Section Valid.
     intros He. destruct (event_in e He) as (pl & Hkv & Hp). destruct e as [ch p]. cbn [fst snd] in *.
     destruct P_facts as (Hu & H2 & _). destruct (H2 ch pl Hkv) as (_ & Hg & _).
     rewrite Forall_forall in Hg. destruct (Hg p Hp) as (Hch & Hin & Hft).
-    destruct (valid_piece_parts g c tracks Hv) as (Hlen & _ & Hnotes & Hdur).
+    pose proof (valid_piece_parts g c tracks Hv) as (Hlen & _ & Hnotes & Hdur).
     assert (Hnn : 0 <= m_time (p_first p)).
     { pose proof (wfa_Forall _ (fe_sorted_wfa tracks)) as Hw. rewrite Forall_forall in Hw. now apply Hw. }
     split; [|exact Hnn]. unfold ev_local_ok, ev_msg. cbn [snd].
@@ -366,7 +374,7 @@ Section Valid.
       unfold note_ok, pnote in Hnotes.
       apply andb_prop in Hnotes. destruct Hnotes as [Hnotes N5]. apply andb_prop in Hnotes. destruct Hnotes as [Hnotes N4].
       apply andb_prop in Hnotes. destruct Hnotes as [Hnotes N3]. apply andb_prop in Hnotes. destruct Hnotes as [N1 N2].
-      apply is_on_type in Hon. rewrite Hon, N1. unfold ev_dur, ev_time, ev_msg. cbn [snd]. rewrite Hch, N2, N3, N4, N5.
+      apply is_on_type' in Hon. rewrite Hon, N1. unfold ev_dur, ev_time, ev_msg. cbn [snd]. rewrite Hch, N2, N3, N4, N5.
       unfold lenZ in Hlen.
       replace (0 <=? ch) with true by (symmetry; apply Z.leb_le; lia).
       replace (ch <? c_ntracks c) with true by (symmetry; apply Z.ltb_lt; lia). reflexivity.
@@ -382,3 +390,114 @@ Section Valid.
     now apply event_local.
   Qed.
 End Valid.
+
+(* ================================================================ the theorems (closed statements) *)
+Lemma event_chan g c tracks : valid_piece g c tracks = true ->
+  forall e, In e (fe_events tracks) -> fst e = m_chan (ev_msg e).
+Proof.
+  intros Hv e He. destruct (event_in g c tracks Hv e He) as (pl & Hkv & Hp).
+  pose proof (P_chan g c tracks Hv (fst e) pl Hkv) as Hf. rewrite Forall_forall in Hf. symmetry. now apply Hf.
+Qed.
+
+(* 1. on a valid piece the front end never fails *)
+Theorem C01_frontend_ok_partial : forall (g : Z) (c : cfg) (tracks : list (list msg)),
+  valid_piece g c tracks = true -> exists evs, tok_frontend tracks = Ok evs.
+Proof. intros g c tracks Hv. exists (fe_events tracks). now apply frontend_ok with g c. Qed.
+
+(* 2. its events are ordered by time, carry their channel, and the NOTE_ON events of channel i are the notes of track i *)
+Theorem C01_frontend_notes_partial : forall (g : Z) (c : cfg) (tracks : list (list msg)) (evs : list C01_rest.event),
+  valid_piece g c tracks = true -> tok_frontend tracks = Ok evs ->
+  StronglySorted (fun a b => ev_time a <= ev_time b) evs /\
+  (forall e, In e evs -> fst e = m_chan (ev_msg e)) /\
+  forall i, (i < length tracks)%nat -> Permutation (track_notes (Z.of_nat i) evs) (notes_of (nth i tracks [])).
+Proof.
+  intros g c tracks evs Hv He. rewrite (frontend_ok g c tracks Hv) in He. injection He as <-.
+  split; [exact (events_sorted g c tracks Hv)|]. split; [now apply event_chan with g c|].
+  intros i Hi. now apply frontend_notes with g c.
+Qed.
+
+(* 3. the events are valid input for the core *)
+Theorem C01_frontend_valid_partial : forall (g : Z) (c : cfg) (tracks : list (list msg)) (evs : list C01_rest.event),
+  valid_piece g c tracks = true -> tok_frontend tracks = Ok evs -> valid_events g c evs = true.
+Proof.
+  intros g c tracks evs Hv He. rewrite (frontend_ok g c tracks Hv) in He. injection He as <-.
+  now apply frontend_valid.
+Qed.
+
+(* the messages the decoder writes for one note: velocity replaced by the value of its bin *)
+Definition note_msgs (c : cfg) (x : note) : list msg :=
+  let '(p, t, t', v) := x in
+  [mk_on 0 p (nth (Z.to_nat (bin_velocity v (c_vbins c))) (c_vbins c) 0) t false; mk_off 0 p t' false].
+
+Lemma ev_notes_track c i evs :
+  flat_map (ev_notes c i) evs = flat_map (note_msgs c) (track_notes i evs).
+Proof.
+  induction evs as [|e evs IH]; [reflexivity|]. unfold track_notes in *. cbn [flat_map]. rewrite flat_map_app, <- IH.
+  f_equal. unfold ev_notes. unfold is_on, mtype_eqb.
+  destruct (m_type (ev_msg e)); cbn [mtype_rank Z.eqb Pos.eqb andb flat_map]; try reflexivity.
+  destruct (m_chan (ev_msg e) =? i); reflexivity.
+Qed.
+
+Lemma filter_note_rel l : filter is_note (filter rel l) = filter is_note l.
+Proof.
+  rewrite filter_filter. apply filter_ext_in'. intros x _. unfold rel. destruct (is_note x); [reflexivity|apply andb_false_r].
+Qed.
+
+(* 4. piece-level round trip: tokenise, encode, decode, detokenise a valid piece.  evs are the front end's events;
+   track i of the result holds, as its note messages, exactly the notes of track i of the piece (pitch, onset, offset)
+   with each velocity replaced by the value of its bin (up to the order of the messages; every detokenised track is
+   time-ordered, C01_detok_sorted); its NOTE / INTERNAL content is the core's `exp_track` (bar caps), and the final
+   clock sits on the bar start reached by the reference clock. *)
+Theorem C01_piece_roundtrip_partial : forall (g : Z) (c : cfg) (tracks : list (list msg)),
+  valid_cfg g c = true -> valid_piece g c tracks = true ->
+  exists evs toks st ids seqs,
+    tok_frontend tracks = Ok evs /\ valid_events g c evs = true /    tokenise c (tstate0 c) tracks = Ok (toks, st) /\ Forall (fun t => In t (vocab c)) toks /    encode c toks = Ok ids /\ decode c ids = Ok toks /    t_time st = r_time (run_end c (rclk0 c) evs) /\ t_tbar st = 0 /    detokenise c toks = Ok seqs /\ length seqs = length tracks /    forall i, (i < length tracks)%nat ->
+      Permutation (filter rel (nth i seqs [])) (exp_track c evs i) /      Permutation (filter is_note (nth i seqs [])) (flat_map (note_msgs c) (notes_of (nth i tracks []))).
+Proof.
+  intros g c tracks Hc Hv.
+  pose proof (frontend_valid g c tracks Hv) as Hval.
+  destruct (C01_core_roundtrip g c (fe_events tracks) Hc Hval) as (toks & st & seqs & H1 & H2 & H3 & H4 & H5 & H6 & H7).
+  destruct (encode_total c toks H2) as (ids & He).
+  pose proof (valid_piece_parts g c tracks Hv) as (Hlen & _).
+  assert (Hl : length seqs = length tracks) by (rewrite H6, <- Hlen; unfold lenZ; lia).
+  exists (fe_events tracks), toks, st, ids, seqs.
+  split; [now apply frontend_ok with g c|]. split; [exact Hval|]. split.
+  { rewrite tokenise_core. replace (lenZ tracks =? c_ntracks c) with true by (symmetry; now apply Z.eqb_eq).
+    cbn [negb]. rewrite (frontend_ok g c tracks Hv). exact H1. }
+  split; [exact H2|]. split; [exact He|]. split; [now apply C01_encode_decode|].
+  split; [exact H3|]. split; [exact H4|]. split; [exact H5|]. split; [exact Hl|].
+  intros i Hi. rewrite <- Hl in Hi. specialize (H7 i Hi). split; [exact H7|].
+  apply (filter_perm is_note) in H7. rewrite filter_note_rel, exp_track_notes, ev_notes_track in H7.
+  eapply perm_trans; [exact H7|]. apply Permutation_flat_map. apply frontend_notes with g c; [exact Hv|lia].
+Qed.
+
+(* ================================================================ non-vacuity *)
+Definition ex_w (t : Z) : msg := mk_wait 9 t false.
+Definition ex_on (p v : Z) : msg := mk_on 9 p v 0 false.
+Definition ex_off (p : Z) : msg := mk_off 9 p 0 false.
+(* two tracks: a chord, a repeated pitch, a rest at the start, a trailing rest, simultaneous notes across tracks *)
+Definition ex_piece : list (list msg) :=
+  [ [ex_on 60 100; ex_on 62 90; ex_w 24; ex_off 60; ex_off 62; ex_on 60 80; ex_w 12; ex_off 60; ex_w 60];
+    [ex_w 12; ex_on 60 70; ex_w 6; ex_off 60; ex_w 6; ex_on 62 127; ex_w 24; ex_off 62] ].
+
+Example ex_piece_valid : valid_cfg 2 cfg_ex = true /\ valid_piece 2 cfg_ex ex_piece = true.
+Proof. vm_compute. split; reflexivity. Qed.
+
+Example ex_piece_notes :
+  map notes_of ex_piece = [[(60, 0, 24, 100); (62, 0, 24, 90); (60, 24, 36, 80)]; [(60, 12, 18, 70); (62, 24, 48, 127)]].
+Proof. vm_compute. reflexivity. Qed.
+
+Example ex_piece_events :
+  match tok_frontend ex_piece with
+  | Ok evs => map (fun e => (fst e, m_type (ev_msg e), m_note (ev_msg e), ev_time e, ev_dur e)) evs
+  | Err _ => []
+  end = [(0, NOTE_ON, 60, 0, 24); (0, NOTE_ON, 62, 0, 24); (1, NOTE_ON, 60, 12, 6); (0, NOTE_ON, 60, 24, 12);
+         (1, NOTE_ON, 62, 24, 24); (0, INTERNAL, -1, 96, 0)].
+Proof. vm_compute. reflexivity. Qed.
+
+(* the hypotheses are needed: an overlapping re-trigger of a pitch loses a note, a zero-length note is re-ordered *)
+Example ex_overlap_rejected :
+  let r := [ex_on 60 100; ex_w 12; ex_on 60 90; ex_w 12; ex_off 60; ex_w 12; ex_off 60] in
+  valid_track 0 r = false /\ notes_of r = [(60, 12, 24, 90)] /\
+  match tok_frontend [r] with Ok evs => map (fun e => (ev_time e, ev_dur e)) evs | Err _ => [] end = [(0, 36)].
+Proof. vm_compute. repeat split; reflexivity. Qed.
